@@ -1,6 +1,7 @@
 import PQ.Model.Bytes
 import PQ.Model.Bitpack
 import PQ.Model.Rle
+import PQ.Model.Text
 /-!
 Line-protocol driver: one operation per line on stdin, one canonical line out.
 Unknown operation → `bad-op` (never a default).
@@ -58,6 +59,22 @@ def step (line : String) : String :=
     match w.toNat?, parseRuns rs with
     | some w, some runs => let b := serRuns w runs; toHex (le32 b.length ++ b) ++ " " ++ toHex (runsVals runs)
     | _, _ => "bad-op"
+  | ["payloads", cols, mx, codec, ops] =>
+    match parseCols cols, mx.toNat?, codec.toNat? with
+    | some cols, some mx, some codec =>
+      match parseOps cols ops with
+      | some ops => let ps := payloadsOf (WState.init cols mx (parseCodec codec "-")) ops
+                    if ps.isEmpty then "-" else ",".intercalate (ps.map toHex)
+      | none => "bad-op"
+    | _, _, _ => "bad-op"
+  | ["write", cols, mx, codec, ops, tab] =>
+    match parseCols cols, mx.toNat?, codec.toNat? with
+    | some cols, some mx, some codec =>
+      match parseOps cols ops with
+      | some ops => let calls := runWriter cols mx (parseCodec codec tab) ops
+                    toHex (fileBytes calls) ++ " " ++ showCalls calls
+      | none => "bad-op"
+    | _, _, _ => "bad-op"
   | ["pack", w, g] =>
     match w.toNat? with
     | some w => toHex (pack w (unhex g))
